@@ -193,7 +193,7 @@ func c14(w *core.World, r *core.Report) {
 		ruleContiguousAdvance(w, r, name)
 	}
 
-	r.Rule("R14.4", "in-memory resume point stored only after confirmation, with the confirmed values", 3)
+	r.Rule("R14.4", "in-memory resume point stored only after confirmation, with the confirmed values, by the senders themselves", 4)
 	r.Rule("R14.5", "a commit is reported without error only after its replies were validated", 3)
 	ruleConfirmedOnly(w, r)
 
@@ -533,7 +533,108 @@ func ruleConfirmedOnly(w *core.World, r *core.Report) {
 		}
 	}
 	// R14.4
-	r.Rule("R14.4", "", 3)
+	r.Rule("R14.4", "", 4)
+	ruleResumePointWriters(w, r)
+}
+
+// resumeStore is one write of the in-memory resume point as seen from a
+// sender: directly, or through a helper that stores (a field of) one of its
+// parameters, in which case the helper's call site stands for the store.
+type resumeStore struct {
+	field string    // bisyncSeq | bisyncOffset
+	name  string    // name of the field the stored value is loaded from ("" = not a field load)
+	base  ssa.Value // what that field is loaded from
+	at    ssa.Instruction
+}
+
+func bisyncStoreField(s core.Site) string {
+	if s.Name != "(*sync/atomic.Int64).Store" {
+		return ""
+	}
+	fa, ok := s.Common().Args[0].(*ssa.FieldAddr)
+	if !ok {
+		return ""
+	}
+	if n := core.FieldName(fa); n == "bisyncSeq" || n == "bisyncOffset" {
+		return n
+	}
+	return ""
+}
+
+func loadedField(v ssa.Value) (string, ssa.Value) {
+	switch x := core.Unwrap(v).(type) {
+	case *ssa.Field:
+		return core.FieldName(x), x.X
+	case *ssa.UnOp:
+		if x.Op == token.MUL {
+			if fa, ok := x.X.(*ssa.FieldAddr); ok {
+				return core.FieldName(fa), fa.X
+			}
+		}
+	}
+	return "", nil
+}
+
+// helperStores describes a function outside the senders that writes the
+// resume point from its own parameters only: field -> (parameter index, loaded field name or "").
+func helperStores(h *ssa.Function) (map[string][2]interface{}, bool) {
+	out := map[string][2]interface{}{}
+	for _, s := range core.Sites(h, false) {
+		f := bisyncStoreField(s)
+		if f == "" {
+			continue
+		}
+		val := s.Common().Args[1]
+		name, base := loadedField(val)
+		src := core.Unwrap(val)
+		if name != "" {
+			src = core.Unwrap(base)
+		}
+		idx := -1
+		for i, p := range h.Params {
+			if ssa.Value(p) == src {
+				idx = i
+			}
+		}
+		if idx < 0 {
+			return nil, false
+		}
+		out[f] = [2]interface{}{idx, name}
+	}
+	return out, len(out) > 0
+}
+
+func ruleResumePointWriters(w *core.World, r *core.Report) {
+	allowed := map[string]bool{"(*syncer.RedisOutput).sendBisyncSync": true, "(*syncer.RedisOutput).receiveBisyncPipeline": true, "(*syncer.RedisOutput).sendBisyncParallel": true,
+		"(*syncer.RedisOutput).StartPoint": true, "(*syncer.RedisOutput).sendRdb": true, "syncer.NewRedisOutput": true}
+	rootOf := func(g *ssa.Function) *ssa.Function {
+		for g.Parent() != nil {
+			g = g.Parent()
+		}
+		return g
+	}
+	helpers := map[*ssa.Function]map[string][2]interface{}{}
+	var strangers []string
+	var spos token.Pos
+	for _, g := range w.FuncsIn("syncer") {
+		has := false
+		for _, s := range core.Sites(g, false) {
+			if bisyncStoreField(s) != "" {
+				has = true
+				spos = s.Pos()
+			}
+		}
+		if !has || allowed[core.FuncName(rootOf(g))] {
+			continue
+		}
+		if hs, ok := helperStores(g); ok {
+			helpers[g] = hs
+		} else {
+			strangers = append(strangers, core.FuncName(g))
+		}
+	}
+	r.Check(len(strangers) == 0, "bisync-resume-point/writers", spos, "the in-memory resume point is written, from something other than the caller's arguments, outside the senders' confirmation sites, the start point and the snapshot completion: %v", strangers)
+
 	type spec struct{ fn, confirm string }
 	for _, sp := range []spec{
 		{"(*syncer.RedisOutput).sendBisyncSync", "(*syncer.RedisOutput).execBisyncUnit"},
@@ -544,36 +645,69 @@ func ruleConfirmedOnly(w *core.World, r *core.Report) {
 		if f == nil {
 			continue
 		}
-		n := 0
+		frontierMode := strings.HasSuffix(sp.confirm, ".onCommitted")
+		seen := map[string]bool{}
 		for _, g := range core.DeepFuncs(f) {
-			for _, s := range core.SitesNamed(g, false, "(*sync/atomic.Int64).Store") {
-				field := ""
-				if fa, ok := s.Common().Args[0].(*ssa.FieldAddr); ok {
-					field = core.FieldName(fa)
-				}
-				if field != "bisyncSeq" && field != "bisyncOffset" {
+			var evs []resumeStore
+			for _, s := range core.Sites(g, false) {
+				if fld := bisyncStoreField(s); fld != "" {
+					name, base := loadedField(s.Common().Args[1])
+					evs = append(evs, resumeStore{fld, name, base, s.Instr})
 					continue
 				}
-				n++
+				if hs, ok := helpers[s.Callee]; ok && s.Callee != nil {
+					for fld, d := range hs {
+						idx, hname := d[0].(int), d[1].(string)
+						if idx >= len(s.Common().Args) {
+							continue
+						}
+						arg := s.Common().Args[idx]
+						if hname != "" {
+							evs = append(evs, resumeStore{fld, hname, arg, s.Instr})
+						} else {
+							name, base := loadedField(arg)
+							evs = append(evs, resumeStore{fld, name, base, s.Instr})
+						}
+					}
+				}
+			}
+			for _, e := range evs {
+				seen[e.field] = true
 				confirmed := false
 				for _, c := range core.SitesNamed(g, false, sp.confirm) {
-					if core.Dominates(c.Instr, s.Instr) && core.OnSuccessOf(s.Instr.Block(), c.Value()) {
+					if core.Dominates(c.Instr, e.at) && core.OnSuccessOf(e.at.Block(), c.Value()) {
 						confirmed = true
 					}
 				}
-				val := s.Common().Args[1]
-				want := map[string][]string{"bisyncSeq": {"Seq", "UnitSeq"}, "bisyncOffset": {"EndOffset", "Offset"}}[field]
+				want := map[string][]string{"bisyncSeq": {"Seq", "UnitSeq"}, "bisyncOffset": {"EndOffset", "Offset"}}[e.field]
 				okVal := false
 				for _, wn := range want {
-					if fieldNameOfLoad(val) == wn {
+					if e.name == wn {
 						okVal = true
 					}
 				}
-				r.Check(confirmed && okVal, shortName(sp.fn)+"/"+field+"-after-confirmation", s.Pos(), "the in-memory resume point (%s) must be stored only after the commit was confirmed (confirmed=%v) and from the confirmed unit/frontier (value ok=%v)", field, confirmed, okVal)
+				if frontierMode {
+					// units complete out of order: only the coordinator's contiguous frontier is a resume point
+					fromFrontier := false
+					b := e.base
+					if b != nil {
+						if u, ok := core.Unwrap(b).(*ssa.UnOp); ok && u.Op == token.MUL {
+							b = u.X
+						}
+						if fb, ok := b.(*ssa.FieldAddr); ok && core.FieldName(fb) == "frontier" {
+							fromFrontier = true
+						}
+						if fb, ok := core.Unwrap(e.base).(*ssa.Field); ok && core.FieldName(fb) == "frontier" {
+							fromFrontier = true
+						}
+					}
+					okVal = okVal && fromFrontier
+				}
+				r.Check(confirmed && okVal, shortName(sp.fn)+"/"+e.field+"-after-confirmation", e.at.Pos(), "the in-memory resume point (%s) must be stored only after the commit was confirmed (confirmed=%v) and from the confirmed unit (sync mode) or the coordinator's contiguous frontier (pipeline/parallel modes, where units complete out of order) (value ok=%v)", e.field, confirmed, okVal)
 			}
 		}
-		if n == 0 {
-			r.Fail(shortName(sp.fn)+"/resume-point", f.Pos(), "the sender never records its progress")
+		if !seen["bisyncSeq"] || !seen["bisyncOffset"] {
+			r.Fail(shortName(sp.fn)+"/resume-point", f.Pos(), "the sender must record both the sequence and the offset of its confirmed progress (found seq=%v offset=%v)", seen["bisyncSeq"], seen["bisyncOffset"])
 		}
 	}
 }
